@@ -88,7 +88,7 @@ def run_case(case, built=None, keep_obs=False):
         write_once=case.get('write_once', True),
         collab_faults={(c, k): True for c, k in case.get('collab_faults', [])},
         start_gated=case.get('start_gated', False), sequential=(shape == 'seq'), pool_cap=case.get('pool_cap'),
-        shared_meta=case.get('shared_meta', False))
+        shared_meta=case.get('shared_meta', False), gate_events2=case.get('gate_events2', 0.0))
     findings = []
     findings += monitors.check_termination(obs)
     fd, ndisp = monitors.check_dispatch(obs, prog)
